@@ -8,6 +8,7 @@ import CimbaModel.Sim.S3Grant
 import CimbaModel.Sim.S3Signals
 import CimbaModel.Sim.S3All
 import CimbaModel.Sim.S3GrantBuilt
+import CimbaModel.Sim.S3GrantT
 
 namespace CimbaModel.Props.C08
 open CimbaModel CimbaModel.Sim CimbaModel.Event CimbaModel.Generated CimbaModel.HashHeap.SpecOrders
@@ -361,6 +362,24 @@ example : ∃ w0 : World, Built w0 ∧ VarsOk w0 ∧ w0.procs.size = 2 ∧ (∃ 
     rw [hprocs]; rfl
   refine ⟨_, hb, hv, hsz, ⟨0, ?_⟩, fun fuel => hb.grantRun (by rw [hsz]; decide) hv fuel⟩
   simp only [gOf, hres]; rfl
+
+/-- the original `GrantInv` (S3Grant: whenever the front waiter of a non-condition guard could be served, a grant is
+    pending at the current time) is a corollary: `GT` = every pending grant is due at the current time (while a grant is
+    pending the clock does not move), `Cover` = every guard that is not a condition's is the guard of an object end
+    (static) -/
+theorem grant_inv_reachable {S : Nat → Prop} {w0 w : World} (hr : Reach w0 w) (h0 : GrantAll S w0) (ht : GT w0) (hc : Cover w0)
+    (hf : w.fault = none) : GrantInv w := by
+  have hA := h0.reach hr
+  have hst : Stat w0 w := by
+    clear hA hf
+    induction hr with
+    | refl => exact Stat.refl _
+    | step _ hd ih => exact ih.trans (Stat.dispatch hd)
+  exact grantInv_of_all hA (GT.reach hr ht h0.all.g.ei).1 (hc.ofStat hst) hf
+
+theorem grant_inv_loader {w0 w : World} (hb : Built w0) (hsz : w0.procs.size < 2 ^ 31) (hv : VarsOk w0) (hr : Reach w0 w)
+    (hf : w.fault = none) : GrantInv w :=
+  grant_inv_reachable hr (hb.grantAll hsz hv) hb.gt hb.cover hf
 
 /- non-vacuity of `quiescent_ok_loader`: a built world with a resource and a process that is never started is quiescent,
    fault-free, and has an object end with a guard -/
